@@ -290,15 +290,46 @@ func walkedStr(res string, vs [][2]string) string {
 type backend struct {
 	kv   *pisces.KV
 	dump func() []ent
+	// value isolation: every []byte handed to the store and every []byte it handed
+	// back, kept so that the harness can write over them (over their whole capacity)
+	// after each call; the stored contents must not move
+	held    [][]byte
+	aliased bool
+}
+
+// in makes the caller's slice for a call: the bytes of v with spare capacity behind them.
+func (b *backend) in(v []byte) []byte {
+	buf := make([]byte, len(v), len(v)+24)
+	copy(buf, v)
+	b.held = append(b.held, buf)
+	return buf
+}
+
+// out registers a slice the store returned.
+func (b *backend) out(bs []byte) {
+	if cap(bs) > 0 {
+		b.held = append(b.held, bs)
+	}
+}
+
+// scribble plays the caller who reuses its buffers: every held slice is overwritten
+// over its full capacity (which is also what an append to the caller's copy does).
+func (b *backend) scribble() {
+	for _, h := range b.held {
+		h = h[:cap(h)]
+		for i := range h {
+			h[i] = 0xEE
+		}
+	}
 }
 
 func (b *backend) exec(o *op) string {
 	kv := b.kv
 	switch o.name {
 	case "add":
-		return classify(o.name, kv.Add(o.k, json.RawMessage(o.v)))
+		return classify(o.name, kv.Add(o.k, json.RawMessage(b.in(o.v))))
 	case "addClass":
-		return classify(o.name, kv.AddClass(o.k, o.c, json.RawMessage(o.v)))
+		return classify(o.name, kv.AddClass(o.k, o.c, json.RawMessage(b.in(o.v))))
 	case "setClass":
 		return classify(o.name, kv.SetClass(o.k, o.c))
 	case "remove":
@@ -313,6 +344,8 @@ func (b *backend) exec(o *op) string {
 		if kv.Get(o.k, &raw) == nil {
 			j = 1
 		}
+		b.out(bs)
+		b.out(raw)
 		return "ok:" + hx.Hex(bs) + ":j=" + strconv.Itoa(j)
 	case "has":
 		h, err := kv.Has(o.k)
@@ -321,30 +354,31 @@ func (b *backend) exec(o *op) string {
 		}
 		return "ok:" + strconv.FormatBool(h)
 	case "emplace":
-		return classify(o.name, kv.Emplace(o.k, json.RawMessage(o.v)))
+		return classify(o.name, kv.Emplace(o.k, json.RawMessage(b.in(o.v))))
 	case "replace":
-		return classify(o.name, kv.Replace(o.k, json.RawMessage(o.v)))
+		return classify(o.name, kv.Replace(o.k, json.RawMessage(b.in(o.v))))
 	case "appendBytes":
 		if o.vNil {
 			return classify(o.name, kv.AppendBytes(o.k, nil))
 		}
-		return classify(o.name, kv.AppendBytes(o.k, append([]byte{}, o.v...)))
+		return classify(o.name, kv.AppendBytes(o.k, b.in(o.v)))
 	case "setBytes":
 		if o.vNil {
 			return classify(o.name, kv.SetBytes(o.k, nil))
 		}
-		return classify(o.name, kv.SetBytes(o.k, append([]byte{}, o.v...)))
+		return classify(o.name, kv.SetBytes(o.k, b.in(o.v)))
 	case "set":
-		return classify(o.name, kv.Set(o.k, json.RawMessage(o.v)))
+		return classify(o.name, kv.Set(o.k, json.RawMessage(b.in(o.v))))
 	case "mutate":
 		saw := "none"
 		raw := new(json.RawMessage)
 		err := kv.Mutate(o.k, raw, func(v interface{}) error {
 			p := v.(*json.RawMessage)
 			saw = hx.Hex([]byte(*p))
+			b.out(*p)
 			switch o.mode {
 			case "put":
-				*p = append(json.RawMessage{}, o.v...)
+				*p = b.in(o.v)
 				return nil
 			case "cancel":
 				*p = json.RawMessage("0")
@@ -373,6 +407,7 @@ func (b *backend) exec(o *op) string {
 			Make: func() interface{} { return new(json.RawMessage) },
 			Do: func(cls string, v interface{}) error {
 				vs = append(vs, [2]string{cls, string(*v.(*json.RawMessage))})
+				b.out(*v.(*json.RawMessage))
 				i++
 				if i-1 == o.stop {
 					if o.how == "cancel" {
@@ -683,6 +718,13 @@ func (w *world) guarded(b *backend, o *op) string {
 	if hx.WithTimeout(w.watchdog, func() {
 		r := b.execSafe(o)
 		d := fnv1a(dumpStr(b.dump()))
+		if len(b.held) > 0 {
+			b.scribble()
+			if d2 := fnv1a(dumpStr(b.dump())); d2 != d {
+				b.aliased = true // the caller wrote to its own buffers and the store's contents moved
+				d = d2
+			}
+		}
 		out = r + "#" + d
 	}) {
 		return out
@@ -801,7 +843,24 @@ func (w *world) runHistory(ops []string) ([]outs, *failure) {
 		if l == "reset" || opName(l) == "dump" {
 			continue
 		}
-		if f := judge(l, x); f != nil && first == nil {
+		f := judge(l, x)
+		if o, ok := parseOp(l); ok && first == nil {
+			for _, p := range []struct {
+				who string
+				b   *backend
+			}{{"mem", w.mem[o.store]}, {"sql", w.sql[o.store]}} {
+				if p.b != nil && p.b.aliased {
+					f = &failure{
+						key: fmt.Sprintf("%s-caller-slice-aliased:%s", p.who, opName(l)),
+						desc: fmt.Sprintf("%s backend: after %q the caller overwrote the byte slices it had passed to / received from the store "+
+							"(over their full capacity) and the stored contents changed: the store keeps or hands out a slice it shares "+
+							"with the caller (value isolation); map gives %s", p.who, l, short(x.ref)),
+					}
+					break
+				}
+			}
+		}
+		if f != nil && first == nil {
 			f.at = i
 			first = f
 			if f.hang {
